@@ -200,6 +200,22 @@ def rule_c(ctx: Ctx) -> None:
            f.loc(tests[0].ast) if tests else f.loc(), ok,
            '' if ok else 'key references are checked against the counters of the root pass only: keys collected in the streamed chunks are not seen',
            key='iter_errors|merge-identities')
+    # the document-wide table is created lazily per constraint (only when a chunk under the constraint's scope was seen): every
+    # read `identities[k]` needs the membership test its sibling sites have (a root without children has no chunk at all)
+    nread = 0
+    for n in g.stmt_nodes():
+        for e in n.exprs:
+            for x in ast.walk(e):
+                if isinstance(x, ast.Subscript) and isinstance(x.ctx, ast.Load) and text(x.value) == 'identities':
+                    nread += 1
+                    k = text(x.slice)
+                    gs = guards(ctx, f, n)
+                    okr = (f'{k} in identities', 'T') in gs or (f'{k} not in identities', 'F') in gs
+                    ctx.ob(rule, f'iter_errors: `identities[{k}]` is read only for a constraint that has a document-wide counter', f.loc(x), okr,
+                           '' if okr else f'no `{k} in identities` on the path (the sibling read at the ancestor-change site has it): a lazy document whose '
+                           'root has an identity constraint but no child never creates the counter - KeyError instead of a verdict',
+                           key=f'iter_errors|identities-read|{text(n.ast)[:50]}')
+    ctx.floor(rule, 'reads of the document-wide identity table in iter_errors', nread, 2)
     lvl = [c for c in calls(f.node) if text(c.func) == 'ValidationContext']
     a = get_arg(lvl[0], None, 'level') if lvl else None
     ok = a is not None and text(a).startswith('resource.lazy_depth')
@@ -275,4 +291,85 @@ def rule_f(ctx: Ctx) -> None:
     c18.rule_c(ctx, 'C06.f')
 
 
-RULES = [rule_a, rule_b, rule_c, rule_d, rule_e, rule_f]
+def _truth(e: ast.AST, env: dict, unknown: list) -> bool:
+    if isinstance(e, ast.BoolOp):
+        vals = [_truth(v, env, unknown) for v in e.values]
+        return all(vals) if isinstance(e.op, ast.And) else any(vals)
+    if isinstance(e, ast.UnaryOp) and isinstance(e.op, ast.Not):
+        return not _truth(e.operand, env, unknown)
+    t = text(e)
+    if t in env:
+        return env[t]
+    unknown.append(t)
+    return False          # an unrecognised conjunct cannot be relied upon to be true
+
+
+def rule_g(ctx: Ctx) -> None:
+    """The set of elements selected by an identity constraint is cached on its counter; the tree of a lazy resource grows (and is
+    pruned) while it is validated, so for a lazy source an element that is not in the cached set is looked up in a fresh selection."""
+    rule = 'C06.g'
+    f = ctx.idx.method('xmlschema.validators.elements.XsdElement', 'collect_key_fields')
+    ctx.analysed(f.qualname)
+    enc = {}
+    for parent in ast.walk(f.node):
+        for ch in ast.iter_child_nodes(parent):
+            enc[id(ch)] = parent
+    memo = [s for s in walk_no_nested(f.node) if isinstance(s, ast.Assign) and text(s.targets[0]) == 'counter.elements'
+            and any(isinstance(c.func, ast.Attribute) and c.func.attr in ('select_results', 'select', 'iter_select') for c in calls(s))]
+    ctx.floor(rule, 'cached selections in collect_key_fields', len(memo), 1)
+    for s in memo:
+        p = enc.get(id(s))
+        while p is not None and not (isinstance(p, ast.If) and any(s is x for b in p.body for x in ast.walk(b))):
+            p = enc.get(id(p))
+        if p is None:
+            ctx.ob(rule, 'collect_key_fields: the selection is computed for every element (no cache)', f.loc(s), True, '', key='collect_key_fields|selection-refresh')
+            continue
+        unknown: list = []
+        env = {'counter.elements is None': False, 'counter.elements is not None': True,
+               'context.source.is_lazy()': True, 'not context.source.is_lazy()': False, 'context.source.lazy_depth': True,
+               'obj not in counter.elements': True, 'obj in counter.elements': False}
+        ok = _truth(p.test, env, unknown)
+        ctx.ob(rule, 'collect_key_fields: for a lazy source an element missing from the cached selection triggers a fresh selection', f.loc(p), ok,
+               '' if ok else f'the selection is refreshed only under `{text(p.test)[:70]}`: with a cached set, a lazy source and a new element this is false - the '
+               'set computed from the part of the document parsed so far (first parser block) is kept, later chunks are not counted: duplicate '
+               'keys are missed and key references reported dangling', key='collect_key_fields|selection-refresh')
+    ctx.explain(f'{rule}: the guard of the cached selection (`counter.elements = …select_results…`) is evaluated under '
+                '{cached, lazy source, element not in cache}: it must be true.')
+
+
+def rule_h(ctx: Ctx) -> None:
+    """Same errors *in the same order*: a full run reports what concerns the root element itself (its attributes) before
+    anything inside its children.  The lazy driver takes the root from the selector; the selector mode decides when."""
+    rule = 'C06.h'
+    f = ctx.idx.method(SCHEMA, 'iter_errors')
+    ctx.analysed(f.qualname)
+    cs = [c for c in calls(f.node) if isinstance(c.func, ast.Attribute) and c.func.attr == 'iter_depth']
+    ctx.floor(rule, 'iter_depth selectors in iter_errors', len(cs), 1)
+    d = ctx.idx.method(RES, 'iter_depth')
+    flags = {}
+    for st in walk_no_nested(d.node):
+        if isinstance(st, ast.Assign) and len(st.targets) == 1 and isinstance(st.targets[0], ast.Name) and isinstance(st.value, ast.Compare) \
+                and text(st.value.left) == 'mode' and len(st.value.ops) == 1 and isinstance(st.value.comparators[0], ast.Constant):
+            flags[st.targets[0].id] = (type(st.value.ops[0]), st.value.comparators[0].value)
+    if not {'incomplete_root', 'pruned_root'} <= set(flags):
+        raise AnalysisError(f'UNRECOGNISED-IDIOM {rule}: mode flags of {d.qualname}')
+
+    def ev(flag, mode):
+        op, k = flags[flag]
+        return {ast.Eq: mode == k, ast.NotEq: mode != k, ast.Gt: mode > k, ast.GtE: mode >= k, ast.Lt: mode < k, ast.LtE: mode <= k}[op]
+    for c in cs:
+        m = get_arg(c, 0, 'mode')
+        if not (isinstance(m, ast.Constant) and isinstance(m.value, int)):
+            raise AnalysisError(f'UNRECOGNISED-IDIOM {rule}: iter_depth mode `{text(m)}` at {f.loc(c)}')
+        first = ev('incomplete_root', m.value)
+        last = ev('pruned_root', m.value)
+        ok = first or not last
+        ctx.ob(rule, f'iter_errors: the root element of a lazy document is validated before its chunks (iter_depth mode {m.value})', f.loc(c), ok,
+               '' if ok else f'mode {m.value} yields the chunks first and the pruned root on its end event: what concerns the root itself (its attributes, '
+               'its child sequence) is reported after the errors of all chunks, the full run reports it first - same errors, different order',
+               key='iter_errors|root-after-chunks')
+    ctx.explain(f'{rule}: the literal mode of the iter_depth selector is folded into the flags of XMLResource.iter_depth '
+                '(incomplete_root / pruned_root) to decide when the root reaches the driver.')
+
+
+RULES = [rule_a, rule_b, rule_c, rule_d, rule_e, rule_f, rule_g, rule_h]
